@@ -48,7 +48,7 @@ pub struct Case {
 
 fn dir_name() -> BoxedStrategy<String> {
     prop_oneof![
-        5 => (prop::sample::select(vec!["foo", "py312-mysqlclient", "a-b-c", "p5-DBD-mysql", "x", "libnbcompat", "é", "-lead"]), prop::sample::select(vec!["1.0", "2.2.4nb1", "0", "1.0nb12", "20240101", "1.0rc1", ""]))
+        5 => (prop::sample::select(vec!["foo", "py312-mysqlclient", "a-b-c", "p5-DBD-mysql", "x", "libnbcompat", "é", "-lead", "font-adobe-100dpi", "tex-2up", "lib-2", "3proxy", "a-1-b", "1-2"]), prop::sample::select(vec!["1.0", "2.2.4nb1", "0", "1.0nb12", "20240101", "1.0rc1", ""]))
             .prop_map(|(b, v)| format!("{}-{}", b, v)),
         1 => prop::sample::select(vec!["nodash", "+COMMENT", "pkgdb.byfile.db"]).prop_map(String::from),
     ]
